@@ -28,7 +28,10 @@ type ReadersClause struct {
 func (e *Engine) readersObligations(prop string) []*Obligation {
 	var out []*Obligation
 	sc := newScript()
-	for i, rc := range e.readers {
+	rcount := map[string]int{}
+	for _, rc := range e.readers {
+		i := rcount[rc.Global] // ordinal among the clauses for the same variable (stable under additions elsewhere)
+		rcount[rc.Global]++
 		dot := strings.LastIndex(rc.Global, ".")
 		if dot < 0 {
 			continue
@@ -107,7 +110,10 @@ type WritersClause struct {
 func (e *Engine) writersObligations(prop string) []*Obligation {
 	var out []*Obligation
 	sc := newScript()
-	for i, wc := range e.writers {
+	wcount := map[string]int{}
+	for _, wc := range e.writers {
+		i := wcount[wc.Field]
+		wcount[wc.Field]++
 		parts := strings.Split(wc.Field, ".")
 		name := wc.Field + "/frame:writers#" + strconv.Itoa(i)
 		fail := func(msg string) {
@@ -215,7 +221,10 @@ type CallersClause struct {
 func (e *Engine) callersObligations(prop string) []*Obligation {
 	var out []*Obligation
 	sc := newScript()
-	for i, cc := range e.callers {
+	ccount := map[string]int{}
+	for _, cc := range e.callers {
+		i := ccount[cc.Callee]
+		ccount[cc.Callee]++
 		name := cc.Callee + "/frame:callers#" + strconv.Itoa(i)
 		target := e.funcByName[cc.Callee]
 		if target == nil {
